@@ -178,7 +178,7 @@ func genWireRun(rng *rand.Rand, o *wireOpts, fi int, actor string) *wireRun {
 		}
 	}
 	if v.Entry == "sack" {
-		wr.lis = &sim.Listener{Addr: c.Target, Port: c.Port, Permitted: true, Timestamps: chance(rng, 0.5), ISN: pick(rng, rng.Uint32(), 0, 1, 0xffffff00+uint32(rng.IntN(256)), 0xffffffff, 0x7fffffff, -uint32(between(rng, 1, 8)), -uint32(between(rng, 1, 8))), ServerSeq: rng.Uint32()}
+		wr.lis = &sim.Listener{Addr: c.Target, Port: c.Port, Permitted: true, Timestamps: chance(rng, 0.5), ISN: pick(rng, rng.Uint32(), 0, 1, 0xffffff00+uint32(rng.IntN(256)), 0xffffffff, 0x7fffffff, -uint32(between(rng, 1, 8)), -uint32(between(rng, 1, 8))), ServerSeq: rng.Uint32(), OptLayout: pick(rng, "", "", "bsd", "win", "tsfirst", "sacklast")}
 		if !o.wrapBases && chance(rng, 0.5) {
 			wr.lis.ISN = rng.Uint32()
 		}
